@@ -1,6 +1,53 @@
-(* Props/C05.v -- placeholder until the theorems are stated; see Pwl/Cache.v *)
-From AT Require Import Num Vec Aff Farkas FM Equiv PTree Cache.
+(* Props/C05.v -- C05: cached feasibility verdicts and witnesses stay sound.  Property theorems only.
+   wit_ok tol q t  : every FeasibleWitness list in t is non-empty and each point satisfies the closed path
+                     polytope of its node within the containment tolerance tol (Polytope::contains, 1e-8)
+   marks_ok x q t  : no node marked Infeasible has x in its closed path polytope (per input x; for an oracle sound
+                     up to thin regions: every x outside the polytopes it declared infeasible)
+   Paths are those of the RESULT tree (a forwarded node has a shorter path, hence a larger region). *)
+From AT Require Import Num Vec Aff PTree Cells Abs Cache Elim ElimEval ElimCache CPrune CPruneCache ElimExample.
+
+(* points returned by the witness-repair heuristic lie in the polytope they were asked for: the acceptance test of
+   mirror_points (normalised rows, positive factors nu_i, margin eps = 1e-10) implies membership *)
 Theorem C05_mirror_points_sound : forall nus eps rs p, Forall (fun nu => 0 < nu) nus -> 0 <= eps -> length nus = length rs ->
   Forall (fun nr => accept_row (fst nr) eps (snd nr) p) (combine nus rs) -> in_rows rs p.
 Proof. exact mirror_points_sound. Qed.
+
+(* infeasible_elimination, any LP oracle: phase_inh re-checks the new half-space, phase_one / phase_two only store
+   points that passed the containment test *)
+Theorem C05_elim_witnesses : forall o tol t, mir_sound o tol -> wit_ok tol [] t -> wit_ok tol [] (fst (elim o tol t)).
+Proof. exact elim_wit. Qed.
+Theorem C05_elim_sub_witnesses : forall o tol, mir_sound o tol ->
+  forall t isroot q st k, wit_kids tol q t -> st_wit tol q st -> wit_ok tol q (fst (elim_sub o tol isroot q st t k)).
+Proof. exact elim_sub_wit. Qed.
+Theorem C05_elim_marks : forall o tol t x, osound o x -> marks_kids x [] t -> marks_kids x [] (fst (elim o tol t)).
+Proof. exact elim_marks. Qed.
+Theorem C05_elim_sub_marks : forall o tol x, osound o x ->
+  forall t isroot q st k, marks_kids x q t -> (st = Infeas -> ~ in_rows q x) ->
+  marks_ok x q (fst (elim_sub o tol isroot q st t k)).
+Proof. exact elim_sub_marks. Qed.
+
+(* composition / operators with pruning: nodes of the modified tree keep state and path (a terminal that becomes a
+   decision keeps its cache), new nodes are Indeterminate -- for every oracle *)
+Theorem C05_prune_witnesses : forall o tol s L t q k, wit_ok tol q t -> wit_ok tol q (fst (cprune o tol s L t q k)).
+Proof. exact cprune_wit. Qed.
+Theorem C05_prune_marks : forall o tol s L x t q k, marks_ok x q t -> marks_ok x q (fst (cprune o tol s L t q k)).
+Proof. exact cprune_marks. Qed.
+
+(* a witness that moves up with its node stays a witness: dropping path rows only enlarges the region *)
+Theorem C05_witness_monotone : forall tol t q q', (forall r, In r q' -> In r q) -> wit_ok tol q t -> wit_ok tol q' t.
+Proof. exact wit_ok_incl. Qed.
+
+Example C05_nonvacuous :
+  mir_sound ex_o 0 /\ wit_ok 0 [] ex_t /\ wit_ok 0 [] (fst (elim ex_o 0 ex_t)) /\
+  (forall x, marks_kids x [] (fst (elim ex_o 0 ex_t))).
+Proof. exact ex_c05. Qed.
+
 Print Assumptions C05_mirror_points_sound.
+Print Assumptions C05_elim_witnesses.
+Print Assumptions C05_elim_sub_witnesses.
+Print Assumptions C05_elim_marks.
+Print Assumptions C05_elim_sub_marks.
+Print Assumptions C05_prune_witnesses.
+Print Assumptions C05_prune_marks.
+Print Assumptions C05_witness_monotone.
+Print Assumptions C05_nonvacuous.
